@@ -42,8 +42,8 @@
 //  * std: Rc::{as_ref, deref, from} are the identity on the pointee, `String::to_string` / `Rc<String>::to_string` keep the text;
 //    the hand-written Clone impls of the aggregates / ValueAggregate mirror their `#[derive(Clone)]`;
 //  * lambda_applier: select_by_lambda_from_scalar (no contract), select_by_lambda_from_stream (`Ok` => for a value path the returned
-//    index is inside the stream: TETRAPLET_IDX_CORRECT; for a functor no index), select_by_lambda_from_canon_map: the tetraplet side
-//    of a lens on a canon MAP is NOT derived anywhere (`map_lens_tet` is uninterpreted: iterator chains, format!, `String + &str`);
+//    index is inside the stream: TETRAPLET_IDX_CORRECT; for a functor no index), select_by_lambda_from_canon_map: here `map_lens_tet`
+//    only names the tetraplet it returns; that tetraplet is derived in unit tetraplets_map (`map_lensed`);
 //  * the execution context: Scalars::{get_value, get_canon_stream, get_canon_map} are uninterpreted lookups (a fold variable is visible
 //    only while its iterable is non-empty); ExecutionCtx::{error, last_error} return the stored descriptors; IterableValue
 //    (`Box<dyn Iterable>`) is opaque with an uninterpreted `peeked()` -- the link "peek() of the boxed iterable = peek of the concrete
@@ -579,10 +579,12 @@ pub fn select_by_lambda_from_stream<'value>(stream: ResultsIter<'value>, lambda:
 #[verifier::external_body]
 pub fn lens_body_suffix(body: &[ValueAccessor<'_>]) -> (r: String) ensures r@ == suffix_text(body@) { unimplemented!() }
 // the tetraplet side of a lens on a canon map is derived in unit tetraplets_iter
-pub uninterp spec fn map_lens_tet(m: &CanonStreamMap, lambda: LambdaAST<'_>, me: Text) -> Tet;
+// (a NAME for the tetraplet that function returns -- a function of the map, the lens, the scalars a `[scalar]` accessor reads and the
+// current peer; what it is, is derived in unit tetraplets_map: `map_lensed`)
+pub uninterp spec fn map_lens_tet(m: &CanonStreamMap, lambda: LambdaAST<'_>, scalars: &Scalars<'_>, me: Text) -> Tet;
 #[verifier::external_body]
 pub fn select_by_lambda_from_canon_map(canon_map: &CanonStreamMap, lambda: &LambdaAST<'_>, exec_ctx: &ExecutionCtx<'_>) -> (r: ExecutionResult<MapLensResult>)
-    ensures r matches Ok(m) ==> m.tetraplet.tv() == map_lens_tet(canon_map, *lambda, exec_ctx.me())
+    ensures r matches Ok(m) ==> m.tetraplet.tv() == map_lens_tet(canon_map, *lambda, &exec_ctx.scalars, exec_ctx.me())
 { unimplemented!() }
 pub mod execution_step {
     pub mod value_types { pub use super::super::populate_tetraplet_with_lambda; }
@@ -626,11 +628,11 @@ pub open spec fn stream_lensed(roots: Seq<Tet>, lambda: LambdaAST<'_>, me: Text,
 }
 pub trait JValuable {
     spec fn roots(&self) -> Seq<Tet>;
-    spec fn lensed(&self, lambda: LambdaAST<'_>, me: Text, t: Tet) -> bool;
+    spec fn lensed(&self, lambda: LambdaAST<'_>, ctx: &ExecutionCtx<'_>, t: Tet) -> bool;
     fn apply_lambda(&self, lambda: &LambdaAST<'_>, exec_ctx: &ExecutionCtx<'_>) -> ExecutionResult<JValue>;
     fn apply_lambda_with_tetraplets(&self, lambda: &LambdaAST<'_>, exec_ctx: &ExecutionCtx<'_>, root_provenance: &Provenance)
         -> (r: ExecutionResult<(JValue, SecurityTetraplet, Provenance)>)
-        ensures r matches Ok(x) ==> self.lensed(*lambda, exec_ctx.me(), x.1.tv());
+        ensures r matches Ok(x) ==> self.lensed(*lambda, exec_ctx, x.1.tv());
     fn as_jvalue(&self) -> JValue;
     fn as_tetraplets(&self) -> (r: RcSecurityTetraplets)
         ensures tvs(r) =~= self.roots();
@@ -638,7 +640,7 @@ pub trait JValuable {
 
 impl JValuable for ValueAggregate {
     open spec fn roots(&self) -> Seq<Tet> { seq![self.stored()] }
-    open spec fn lensed(&self, lambda: LambdaAST<'_>, me: Text, t: Tet) -> bool { scalar_lensed(self.stored(), lambda, me, t) }
+    open spec fn lensed(&self, lambda: LambdaAST<'_>, ctx: &ExecutionCtx<'_>, t: Tet) -> bool { scalar_lensed(self.stored(), lambda, ctx.me(), t) }
 //@ lift air/src/execution_step/value_types/jvaluable/resolved_call_result.rs :: impl JValuable for ValueAggregate :: fn apply_lambda
 //@ name ValueAggregate::apply_lambda
 //@ props C17
@@ -666,7 +668,7 @@ pub mod jvaluable_iterable_item {
 use super::*;
 impl<'ctx> JValuable for IterableItem<'ctx> {
     open spec fn roots(&self) -> Seq<Tet> { seq![self.tet()] }
-    open spec fn lensed(&self, lambda: LambdaAST<'_>, me: Text, t: Tet) -> bool { scalar_lensed(self.tet(), lambda, me, t) }
+    open spec fn lensed(&self, lambda: LambdaAST<'_>, ctx: &ExecutionCtx<'_>, t: Tet) -> bool { scalar_lensed(self.tet(), lambda, ctx.me(), t) }
 //@ lift air/src/execution_step/value_types/jvaluable/iterable_item.rs :: impl<'ctx> JValuable for IterableItem<'ctx> :: fn apply_lambda
 //@ name IterableItem::apply_lambda
 //@ props C17
@@ -692,7 +694,7 @@ impl<'ctx> JValuable for IterableItem<'ctx> {
 
 impl JValuable for &CanonStream {
     open spec fn roots(&self) -> Seq<Tet> { CanonStream::roots(*self) }
-    open spec fn lensed(&self, lambda: LambdaAST<'_>, me: Text, t: Tet) -> bool { stream_lensed_origin(CanonStream::roots(*self), lambda, me, t) }
+    open spec fn lensed(&self, lambda: LambdaAST<'_>, ctx: &ExecutionCtx<'_>, t: Tet) -> bool { stream_lensed_origin(CanonStream::roots(*self), lambda, ctx.me(), t) }
 //@ lift air/src/execution_step/value_types/jvaluable/canon_stream.rs :: impl JValuable for &CanonStream :: fn apply_lambda
 //@ name CanonStream::apply_lambda
 //@ props C17
@@ -750,7 +752,7 @@ impl ValuePathLens for &CanonStream {
 
 impl JValuable for &CanonStreamMap {
     open spec fn roots(&self) -> Seq<Tet> { CanonStreamMap::roots(*self) }
-    open spec fn lensed(&self, lambda: LambdaAST<'_>, me: Text, t: Tet) -> bool { t == map_lens_tet(*self, lambda, me) }
+    open spec fn lensed(&self, lambda: LambdaAST<'_>, ctx: &ExecutionCtx<'_>, t: Tet) -> bool { t == map_lens_tet(*self, lambda, &ctx.scalars, ctx.me()) }
 //@ lift air/src/execution_step/value_types/jvaluable/canon_stream_map.rs :: impl JValuable for &CanonStreamMap :: fn apply_lambda
 //@ name CanonStreamMap::apply_lambda
 //@ props C17
@@ -784,7 +786,7 @@ impl<'i> ScalarRef<'i> {
         ensures
             // whatever stands behind the name, the boxed value carries exactly its stored tetraplet
             r.0.roots() =~= seq![scalar_ref_tet(self)],
-            forall|lambda: LambdaAST<'_>, me: Text, t: Tet| #[trigger] r.0.lensed(lambda, me, t) == scalar_lensed(scalar_ref_tet(self), lambda, me, t),
+            forall|lambda: LambdaAST<'_>, ctx: &ExecutionCtx<'_>, t: Tet| #[trigger] r.0.lensed(lambda, ctx, t) == scalar_lensed(scalar_ref_tet(self), lambda, ctx.me(), t),
 //@ end
 }
 
@@ -864,7 +866,7 @@ pub open spec fn canon_map_ok(ctx: &ExecutionCtx<'_>, name: Text, ts: Seq<Tet>) 
     ctx.scalars.canon_map_spec(name) matches Ok(c) && ts =~= c.canon_stream_map.roots()
 }
 pub open spec fn canon_map_wl_ok(ctx: &ExecutionCtx<'_>, name: Text, lambda: LambdaAST<'_>, ts: Seq<Tet>) -> bool {
-    ctx.scalars.canon_map_spec(name) matches Ok(c) && ts.len() == 1 && ts[0] == map_lens_tet(&c.canon_stream_map, lambda, ctx.me())
+    ctx.scalars.canon_map_spec(name) matches Ok(c) && ts.len() == 1 && ts[0] == map_lens_tet(&c.canon_stream_map, lambda, &ctx.scalars, ctx.me())
 }
 pub open spec fn variable_ok(v: ast::ImmutableVariable<'_>, ctx: &ExecutionCtx<'_>, ts: Seq<Tet>) -> bool {
     match v {
